@@ -128,7 +128,16 @@ def opticG (B : Backend) (op : String) (args : List Sx) (impl : Sx) : Option Out
       | .ok (false, f) => .l [.s "err", enc f]
       | .none => .s "none"
       | .panic _ => .s "panic"
-    pure { model := ms, agree := ms == impl, rel := "exact", note := r.site }
+    if ms == impl then pure { model := ms, agree := true, rel := "exact", note := r.site } else
+    match r, impl with
+    -- a successful build: the term is compared by what it denotes (how the builder numbers the nodes
+    -- and hyperedges it creates is not fixed by the property)
+    | .ok (true, f), .l [.s "ok", _] => pure (laxDenoteRel B (.ok f) impl)
+    -- a failed build (a handle outlived the builder): only the failure itself is specified, not the
+    -- contents of the state that is handed back
+    | .ok (false, _), .l [.s "err", _] =>
+      pure { model := ms, agree := true, rel := "both-fail(a handle outlives the builder)", note := r.site }
+    | _, _ => pure { model := ms, agree := false, rel := "exact", note := r.site }
   | "var.forget", [f] => do
     let f : LF ← dec f
     pure (laxDenoteRel B (LFunctor.mapArrowViaStrict B forgetFunctor f) impl)
